@@ -52,6 +52,18 @@ type caseJSON struct {
 	Note     string    `json:"note,omitempty"`
 	Finding  string    `json:"finding_key,omitempty"`
 	Property string    `json:"property,omitempty"`
+	Steps    []stepJSON `json:"steps,omitempty"` // capseq / ruleseq
+}
+
+// stepJSON is one evaluation of a sequence case. capseq: Op is "rx" or "pm" (capturing, direct
+// call on the shared transaction). ruleseq: ArgHex is the operator text of the rule.
+type stepJSON struct {
+	Op       string   `json:"op,omitempty"`
+	ArgHex   string   `json:"arg_hex"`
+	ValueHex string   `json:"value_hex"`
+	Capture  bool     `json:"capture,omitempty"`
+	Res      string   `json:"res,omitempty"`
+	Caps     []*string `json:"caps_hex,omitempty"`
 }
 
 func hx(s string) string   { return hex.EncodeToString([]byte(s)) }
@@ -189,7 +201,7 @@ func (r *runner) fail(key, what string, c any) {
 func (r *runner) emit(term string, cj *caseJSON, nontrivial bool, dist string) {
 	r.res.Evaluations++
 	r.res.InputDistribution[dist]++
-	k := cj.Kind + "|" + cj.Op + "|" + cj.ArgHex + "|" + cj.ValueHex + "|" + fmt.Sprint(cj.Capture, cj.Prefilter, cj.Tx, cj.Phrases)
+	k := cj.Kind + "|" + cj.Op + "|" + cj.ArgHex + "|" + cj.ValueHex + "|" + fmt.Sprint(cj.Capture, cj.Prefilter, cj.Tx, cj.Phrases, cj.Steps)
 	if !r.seen[k] {
 		r.seen[k] = true
 		if nontrivial {
@@ -492,6 +504,119 @@ func (r *runner) runRule(optext string, txv [][2]string, value string, capture b
 	r.emit(term, cj, nontrivial, "rule_"+name+"_"+cj.Res+pfTag(r.pf))
 }
 
+// runCapSeq: capturing @rx / @pm evaluations one after the other on ONE transaction state, so
+// every evaluation after the first starts from a non-empty TX.0-9; TX.0-9 is read after each.
+func (r *runner) runCapSeq(steps []stepJSON) {
+	cj := &caseJSON{Kind: "capseq", Prefilter: r.pf}
+	tx := newTx(true, nil)
+	defer tx.Close()
+	var sterms, oterms []string
+	any := false
+	for _, st := range steps {
+		arg, v := unhx(st.ArgHex), unhx(st.ValueHex)
+		out := stepJSON{Op: st.Op, ArgHex: st.ArgHex, ValueHex: st.ValueHex, Capture: true}
+		var op plugintypes.Operator
+		var err error
+		switch st.Op {
+		case "rx":
+			idx, matched, ok := rxOracle(arg, v)
+			op, err = operators.Get("rx", plugintypes.OperatorOptions{Arguments: arg, RxPreFilterEnabled: r.pf, Memoizer: r.mz()})
+			if !ok || err != nil {
+				return
+			}
+			m := "None"
+			if matched {
+				m = "(Some " + zlist(idx) + ")"
+			}
+			sterms = append(sterms, fmt.Sprintf("SRx %s %s", m, vh.HxS(v)))
+		case "pm":
+			op, err = operators.Get("pm", plugintypes.OperatorOptions{Arguments: arg, Memoizer: r.mz()})
+			if err != nil {
+				return
+			}
+			sterms = append(sterms, fmt.Sprintf("SPm %s %s %s", lowerTable(arg), vh.HxS(arg), vh.HxS(v)))
+		default:
+			return
+		}
+		b, ok := r.evalSafe(op, tx, v, cj)
+		if !ok {
+			return
+		}
+		any = any || b
+		out.Res = boolStr(b)
+		out.Caps = readCaps(tx)
+		cj.Steps = append(cj.Steps, out)
+		oterms = append(oterms, fmt.Sprintf("(%s, %s)", vh.Bool(b), capsTerm(out.Caps)))
+	}
+	r.emit(fmt.Sprintf("CCapSeq %s %s", vh.List(sterms), vh.List(oterms)), cj, any, fmt.Sprintf("capseq_len%d%s", len(steps), pfTag(r.pf)))
+}
+
+// runRuleSeq: several rules in one WAF (rule i inspects REQUEST_HEADERS:h<i>), so a later
+// capturing rule starts from the TX.0-9 an earlier one left; observed: matched flags, final TX.0-9.
+func (r *runner) runRuleSeq(steps []stepJSON) {
+	cj := &caseJSON{Kind: "ruleseq", Prefilter: r.pf}
+	var sb strings.Builder
+	if r.pf {
+		sb.WriteString("SecRxPreFilter On\n")
+	}
+	for i, st := range steps {
+		acts := fmt.Sprintf("id:%d,phase:1,pass,nolog", i+1)
+		if st.Capture {
+			acts += ",capture"
+		}
+		acts += fmt.Sprintf(",setvar:tx.m%d=1", i+1)
+		fmt.Fprintf(&sb, "SecRule REQUEST_HEADERS:h%d \"%s\" \"%s\"\n", i+1, unhx(st.ArgHex), acts)
+	}
+	waf := corazawaf.NewWAF()
+	err := seclang.NewParser(waf).FromString(sb.String())
+	var rterms []string
+	for _, st := range steps {
+		optext, v := unhx(st.ArgHex), unhx(st.ValueHex)
+		_, name, arg := modelParse(optext)
+		ltbl, rxm := "[]", "None"
+		if name == "pm" {
+			ltbl = lowerTable(arg)
+		}
+		if name == "rx" {
+			idx, matched, ok := rxOracle(arg, v)
+			if !ok || err != nil {
+				return
+			}
+			if matched {
+				rxm = "(Some " + zlist(idx) + ")"
+			}
+		}
+		rterms = append(rterms, fmt.Sprintf("(%s, %s, %s, %s, %s)", vh.HxS(optext), ltbl, rxm, vh.Bool(st.Capture), vh.HxS(v)))
+		cj.Steps = append(cj.Steps, stepJSON{ArgHex: st.ArgHex, ValueHex: st.ValueHex, Capture: st.Capture})
+	}
+	obs := "None"
+	nontrivial := false
+	if err != nil {
+		cj.Res = "error"
+		cj.Note = err.Error()
+	} else {
+		tx := waf.NewTransaction()
+		for i, st := range steps {
+			tx.AddRequestHeader(fmt.Sprintf("h%d", i+1), unhx(st.ValueHex))
+		}
+		if it := tx.ProcessRequestHeaders(); it != nil {
+			r.fail("c15-rule-interruption", "a pass rule interrupted", cj)
+		}
+		flags := make([]string, len(steps))
+		for i := range steps {
+			m := len(tx.Variables().TX().Get(fmt.Sprintf("m%d", i+1))) > 0
+			flags[i] = vh.Bool(m)
+			cj.Steps[i].Res = boolStr(m)
+			nontrivial = nontrivial || m
+		}
+		cj.Caps = readCaps(tx)
+		tx.ProcessLogging()
+		tx.Close()
+		obs = fmt.Sprintf("(Some (%s, %s))", vh.List(flags), capsTerm(cj.Caps))
+	}
+	r.emit(fmt.Sprintf("CRuleSeq %s %s", vh.List(rterms), obs), cj, nontrivial, fmt.Sprintf("ruleseq_len%d%s", len(steps), pfTag(r.pf)))
+}
+
 // modelParse mirrors ParseOperator just enough to know which oracle data a rule case needs
 // (the Coq model decides everything else).
 func modelParse(o string) (raw, name, arg string) {
@@ -575,6 +700,10 @@ func (r *runner) runDoc(doc json.RawMessage) {
 		r.runParse(arg)
 	case "rule":
 		r.runRule(arg, c.Tx, value, c.Capture, c.Finding)
+	case "capseq":
+		r.runCapSeq(c.Steps)
+	case "ruleseq":
+		r.runRuleSeq(c.Steps)
 	case "ipmatch":
 		r.ipMatchDoc(c)
 	}
